@@ -634,7 +634,7 @@ impl<'a> Searcher<'a> {
 
                     match entry {
                         Ok(entry) => {
-                            let mut path = entry.path();
+                            let path = entry.path();
                             let pass_ignores = if apply_gitignore || apply_hgignore || apply_dockerignore {
                                 let mut canonical_path = path.clone();
 
@@ -712,9 +712,12 @@ impl<'a> Searcher<'a> {
                                         let mut ok = false;
 
                                         if file_type.is_symlink() {
-                                            if let Ok(resolved) = std::fs::read_link(&path) {
-                                                ok = true;
-                                                path = resolved;
+                                            // Only links to directories are entered, through the link itself:
+                                            // the text of a relative link is relative to the link's directory,
+                                            // not to the current one. Links to files, dangling links and link
+                                            // loops are just listed.
+                                            if self.current_follow_symlinks {
+                                                ok = fs::metadata(&path).is_ok_and(|target| target.is_dir());
                                             }
                                         } else if file_type.is_dir() {
                                             ok = true;
